@@ -28,6 +28,7 @@ Decides:
                    only to ITS OWN explicit annotation (translation-validation members of C17 that carry doc comments).
  C doc writers    only write_str / write (and the Doc-splicing doc / em_doc / first_line) append to Doc.payload, and they record exactly the
                    number of BYTES appended in the Text token (a char pushed with length 1 shifts every later name of the help).
+ B builders       help(..), descr/header/footer/usage/version, group_help, custom_usage store their argument in the field of the same name (wiring table).
 Does not decide: de-duplication and grouping outcomes for particular shapes."""
 import re
 from core import *
@@ -40,7 +41,7 @@ import walkers
 LEVEL = 'other'
 EXPLANATION = __doc__
 ASSUMPTIONS = ['third-party Parser impls describe themselves truthfully']
-FLOORS = {'S.eval-meta': 28, 'K.skip': 5, 'W.walkers': 75, 'D.dedup': 5, 'H.item-copy': 5, 'N.names': 2, 'O.order': 5, 'C.cursor': 2, 'E.embedders': 2, 'D.derive-sections': 5}
+FLOORS = {'S.eval-meta': 28, 'K.skip': 5, 'W.walkers': 75, 'D.dedup': 5, 'H.item-copy': 5, 'N.names': 2, 'O.order': 5, 'C.cursor': 2, 'E.embedders': 2, 'D.derive-sections': 5, 'B.builders': 10}
 
 WALKERS = {
     'append_meta::go': ([r'append_meta::go$'], {}),
@@ -69,6 +70,8 @@ def run(ctx):
         ctx.guard(dedup, ctx, cfg, fs)
         ctx.guard(item_copy, ctx, cfg, fs)
         ctx.guard(names, ctx, cfg, fs)
+        import wiring
+        ctx.guard(wiring.builders, ctx, cfg, fs, 'B.builders', r'(::help$|^info::OptionParser::<T>::(descr|header|footer|usage|version|max_width)$|^Parser::(group_help|with_group_help|custom_usage|hide_usage|hide)$|^params::ParseAny::<T>::metavar$)')
         ctx.guard(order, ctx, cfg, fs)
         ctx.guard(decor, ctx, cfg, fs)
         ctx.guard(embedders, ctx, cfg, fs, 'E.embedders')
